@@ -340,6 +340,10 @@ func evaluateTokens(msg messageInfo, tokens []string, charset string, targetDB *
 				key1Tokens = append(key1Tokens, tokens[i])
 			}
 			i++
+			if i >= len(tokens) {
+				// The first key used up the last token: the second key is missing
+				return false
+			}
 			key2Tokens := []string{tokens[i]}
 			if i+1 < len(tokens) && requiresArgument(strings.ToUpper(tokens[i])) {
 				i++
